@@ -824,7 +824,9 @@ func hasEffects(fn *ssa.Function) bool {
 					eff = true
 				}
 			case *ssa.MapUpdate:
-				eff = true
+				if _, fresh := resolveLocal(x.Map).(*ssa.MakeMap); !fresh {
+					eff = true // filling a map this function made itself is not an effect on anything that existed before
+				}
 			case ssa.CallInstruction:
 				if cal := staticCallee(x.Common()); cal != nil && strings.HasPrefix(pkgPathOf(cal), Mod) && relPkg(cal) != "internal/logger" {
 					if walk(cal, d+1) {
@@ -1366,6 +1368,9 @@ func checkErrorPolarity(p *Prog, r *Report, rule string, inPk func(string) bool)
 								if _, isRet := use.(*ssa.Return); isRet {
 									continue // returning (value, err) together is the usual report
 								}
+								if st, isSt := use.(*ssa.Store); isSt && isResultSpill(st.Addr) {
+									continue // the same, in a function with a defer: results pass through spill slots
+								}
 								if _, isDbg := use.(*ssa.DebugRef); isDbg {
 									continue
 								}
@@ -1383,4 +1388,35 @@ func checkErrorPolarity(p *Prog, r *Report, rule string, inPk func(string) bool)
 	}
 	r.Stat("error_tests", nTests)
 
+}
+
+
+// isResultSpill: addr is a local slot go/ssa uses to carry a result to the return of a function with deferred calls — it is
+// only stored to and loaded for Return instructions.
+func isResultSpill(addr ssa.Value) bool {
+	al, ok := addr.(*ssa.Alloc)
+	if !ok || al.Heap || al.Referrers() == nil {
+		return false
+	}
+	for _, ref := range *al.Referrers() {
+		switch x := ref.(type) {
+		case *ssa.Store:
+			if x.Addr != ssa.Value(al) {
+				return false
+			}
+		case *ssa.UnOp:
+			if x.Referrers() == nil {
+				return false
+			}
+			for _, r2 := range *x.Referrers() {
+				if _, isRet := r2.(*ssa.Return); !isRet {
+					return false
+				}
+			}
+		case *ssa.DebugRef:
+		default:
+			return false
+		}
+	}
+	return true
 }
